@@ -449,7 +449,7 @@ func (g *lockGen) plan() *BlockPlan {
 		nUnl = 12 + r.Intn(14)
 		plan.DT = int64(r.Intn(2))
 	}
-	if rare(2) { // a jailed (downgraded) validator takes out a PART of what it holds and stays at or above every threshold: it stays jailed,
+	if !rare(4) { // a jailed (downgraded) validator takes out a PART of what it holds and stays at or above every threshold: it stays jailed,
 		// powerless and unranked, whatever happens to the token's weight afterwards
 		for vi, v := range st.Val {
 			if !v.Exists || v.Status != "Downgrade" || vi == 0 || nUnl > 20 {
